@@ -4,8 +4,10 @@
 // that run: the scheduler decides when it fires - any moment after its creation, since a scheduled run has no clock -
 // and its callback runs under the scheduler like every other task, so that what it shares with client operations is
 // seen by the race detector and by the interleaving search. Sleep in a scheduled run is a scheduling point.
-// Channel timers (NewTimer, After, Tick) stay real: a task blocked on a channel cannot be scheduled by the token
-// scheduler (stated limit).
+// Channel timers: After and NewTimer created by a task of a scheduled run deliver on their channel when the scheduler
+// picks their (daemon) task - like AfterFunc, any moment after their creation; a timer the code under test re-arms with
+// Reset, tickers (NewTicker, Tick) and context deadlines stay real and are counted as time sources the scheduler does
+// not control (a run that can only go on when one of them fires is left to the wall-clock guard, never judged).
 package simtime
 
 import (
@@ -81,7 +83,27 @@ var (
 	UTC   = time.UTC
 )
 
-func After(d Duration) <-chan Time { return time.After(d) }
+// After: inside a scheduled run the channel is served by a daemon task (it fires when the scheduler picks it).
+func After(d Duration) <-chan Time {
+	s := sched.Active()
+	if s == nil || s.Over() || s.Current() == nil {
+		return time.After(d)
+	}
+	c := make(chan Time, 1)
+	n := s.Stamp()
+	s.Go(fmt.Sprintf("after@%d(%v)", n, d), true, func() {
+		if s.Over() {
+			return
+		}
+		bump()
+		s.Note("timer-fires", d.String())
+		select {
+		case c <- time.Now():
+		default:
+		}
+	})
+	return c
+}
 func Date(y int, m Month, d, h, mi, s, ns int, l *Location) Time {
 	return time.Date(y, m, d, h, mi, s, ns, l)
 }
@@ -90,8 +112,39 @@ func LoadLocation(name string) (*Location, error) { return time.LoadLocation(nam
 func LoadLocationFromTZData(n string, d []byte) (*Location, error) {
 	return time.LoadLocationFromTZData(n, d)
 }
-func NewTicker(d Duration) *Ticker             { return time.NewTicker(d) }
-func NewTimer(d Duration) *Timer               { return time.NewTimer(d) }
+func NewTicker(d Duration) *Ticker {
+	timeSource()
+	return time.NewTicker(d)
+}
+
+// NewTimer: inside a scheduled run the timer's channel is served by a daemon task, unless the code under test stopped
+// the timer before the scheduler picked that task. Stop and Reset act on a real timer that is armed for 1000 h: a
+// timer that is re-armed with Reset fires in real time only (counted as an uncontrolled time source).
+func NewTimer(d Duration) *Timer {
+	s := sched.Active()
+	if s == nil || s.Over() || s.Current() == nil {
+		return time.NewTimer(d)
+	}
+	s.AddTimeSource() // Reset cannot be intercepted: be careful with verdicts about waiting
+	t := time.NewTimer(never)
+	c := make(chan Time, 1)
+	t.C = c
+	n := s.Stamp()
+	s.Go(fmt.Sprintf("timer@%d(%v)", n, d), true, func() {
+		if s.Over() {
+			return
+		}
+		if t.Stop() { // still armed: the code under test did not stop it
+			bump()
+			s.Note("timer-fires", d.String())
+			select {
+			case c <- time.Now():
+			default:
+			}
+		}
+	})
+	return t
+}
 func Now() Time                                { return time.Now() }
 func Parse(layout, value string) (Time, error) { return time.Parse(layout, value) }
 func ParseDuration(s string) (Duration, error) { return time.ParseDuration(s) }
@@ -99,11 +152,20 @@ func ParseInLocation(l, v string, loc *Location) (Time, error) {
 	return time.ParseInLocation(l, v, loc)
 }
 func Since(t Time) Duration       { return time.Since(t) }
-func Tick(d Duration) <-chan Time { return time.Tick(d) }
+func Tick(d Duration) <-chan Time {
+	timeSource()
+	return time.Tick(d)
+}
 func Unix(sec, nsec int64) Time   { return time.Unix(sec, nsec) }
 func UnixMicro(usec int64) Time   { return time.UnixMicro(usec) }
 func UnixMilli(msec int64) Time   { return time.UnixMilli(msec) }
 func Until(t Time) Duration       { return time.Until(t) }
+
+func timeSource() {
+	if s := sched.Active(); s != nil && !s.Over() {
+		s.AddTimeSource()
+	}
+}
 
 // Fired counts the callback timers that the scheduler fired in the current process (read by the worlds per run).
 var fired int
